@@ -12,7 +12,8 @@ use super::c01::put_prefix;
 
 // params: 0 encoding, 1/2 range of symbolic byte count, 3 sink, 4 replacement, 5/6 first-byte shard,
 //         7 prefix id, 8 BOM mode, 9 min capacity, 10 max capacity, 11 number of cuts (1 or 2),
-//         12 allow an empty final call carrying `last`, 13 number of calls with an own symbolic capacity
+//         12 allow an empty final call carrying `last`, 13 number of calls with an own symbolic capacity,
+//         14 grow: after those calls the destination is large (their capacities may then be below the documented minimum)
 harness!(se_h_c02_chunk, c02_chunk, {
     let e = param(0);
     let sink = param(3);
@@ -44,6 +45,9 @@ harness!(se_h_c02_chunk, c02_chunk, {
     let mut d2 = new_decoder(e, bom);
     let mut parts = Run::new(cmin);
     parts.sym_caps(cmin, cmax, if param(13) == 0 { 3 } else { param(13) });
+    // param 14: the first calls offer tiny destinations (below the documented minimum, down to empty: a call may make no progress),
+    // then the caller grows the destination - the String::new() + reserve-on-OutputFull pattern
+    if param(14) != 0 { parts.grow = true; parts.grow_calls = 2; parts.min_progress = false; }
     let last_in_data = empty_last == 0;
     push(&mut d2, sink, repl, &src[..c1], false, &mut parts);
     if ncuts >= 2 {
